@@ -29,6 +29,8 @@ RespClass(r) == CASE r \in {"", "sub", "echo", "echo.n"} -> "accept"
                   [] OTHER -> "unspecified"
 ConflictClass(c) == CASE c = "none" -> "accept"
                       [] c = "same" -> "reject"                   \* same kind and template as another method's binding
+                      \* a valid binding next to an existing route followed by an invalid additional binding
+                      [] c \in {"leafThenBad", "belowLeafThenBad", "verbLeafThenBad"} -> "reject"
                       [] OTHER -> "unspecified"                   \* '*'-kind overlaps, same node via another field name,
                                                                   \* re-declaring an implicit path: no crash, otherwise free
 RuleClass(e) ==
